@@ -65,7 +65,7 @@ def drive(rep, pid, tier, seed, unpack):
 def run(rep, tier, seed):
     drive(rep, "C13", tier, seed, False)
     # the command glue: `desync tar` onto an existing larger archive, the source directory spelled in equivalent ways, untar of the result
-    cli_common.run(rep, vlib.workdir("C13-cli"), seed, "tar", tier == "thorough")
+    cli_common.run(rep, vlib.workdir("C13-cli"), seed, "tar,stdout-catar", tier == "thorough")
     rep.rule = ("case = random tree of 5-45 nodes (nesting <= 4, fan-out <= 8, names of arbitrary bytes / with spaces / 50-250 characters, files of 0 / 1 / up to 3000 "
                 "bytes, symlinks incl. dangling and absolute, char and block devices, 10 modes incl. set-id/sticky, 6 owners up to 2^31-1, 6 mtimes with ns, user "
                 "xattrs), plus one flat directory for every fan-out 0..64 (0..200 thorough), each packed from disk and from an independent tar stream; "
